@@ -129,23 +129,24 @@ whole chain `P ++ … ++ Q`, it ends with the two runs merged in place (stable: 
 `cmp left right ≤ 0`), `*left` the first and `*right` the last node of the merged section; nodes keep their identity,
 nothing outside the chain is written -/
 theorem mergeLoop_spec (hc : Spec.LSeq.CmpPreorder cmp) (lSize rSize : Nat) (hle : lSize ≤ rSize) (hl0 : 0 < lSize) :
-    ∀ (fuel : Nat) (P A Lr Rr Q : List Cell) (h : Heap) (left right : Option Nat) (lc rc : Nat),
+    ∀ (fuel : Nat) (P A Lr Rr Q : List Cell) (h : Heap) (left right : Option Nat) (lc rc : Nat) (ok : Bool),
       Seg h none (P ++ (A ++ (Lr ++ (Rr ++ Q)))) none → (idsOf (P ++ (A ++ (Lr ++ (Rr ++ Q))))).Nodup → Rr ≠ [] →
       lc + Lr.length = lSize → rc + Rr.length = rSize → A.length = lc + rc →
       left = nxt (A ++ (Lr ++ Rr)) none → (A = [] → right = nxt Rr none) → Lr.length + Rr.length ≤ fuel →
-      Seg (mergeLoop cmp lSize rSize fuel A.length lc rc (nxt (Lr ++ Rr) none) (nxt Rr none) h left right).1 none
+      Seg (mergeLoop cmp lSize rSize fuel A.length lc rc (nxt (Lr ++ Rr) none) (nxt Rr none) h left right ok).1 none
         (P ++ ((A ++ List.merge Lr Rr (leC cmp)) ++ Q)) none ∧
-      (mergeLoop cmp lSize rSize fuel A.length lc rc (nxt (Lr ++ Rr) none) (nxt Rr none) h left right).2.1 =
+      (mergeLoop cmp lSize rSize fuel A.length lc rc (nxt (Lr ++ Rr) none) (nxt Rr none) h left right ok).2.1 =
         nxt (A ++ List.merge Lr Rr (leC cmp)) none ∧
-      (mergeLoop cmp lSize rSize fuel A.length lc rc (nxt (Lr ++ Rr) none) (nxt Rr none) h left right).2.2 =
+      (mergeLoop cmp lSize rSize fuel A.length lc rc (nxt (Lr ++ Rr) none) (nxt Rr none) h left right ok).2.2.1 =
         lastOr (A ++ List.merge Lr Rr (leC cmp)) none ∧
       (∀ b, b ∉ idsOf (P ++ (A ++ (Lr ++ (Rr ++ Q)))) →
-        (mergeLoop cmp lSize rSize fuel A.length lc rc (nxt (Lr ++ Rr) none) (nxt Rr none) h left right).1 b = h b)
-  | 0, P, A, Lr, Rr, Q, h, left, right, lc, rc, _, _, hR, _, _, _, _, _, hf => by
+        (mergeLoop cmp lSize rSize fuel A.length lc rc (nxt (Lr ++ Rr) none) (nxt Rr none) h left right ok).1 b = h b) ∧
+      (mergeLoop cmp lSize rSize fuel A.length lc rc (nxt (Lr ++ Rr) none) (nxt Rr none) h left right ok).2.2.2 = ok
+  | 0, P, A, Lr, Rr, Q, h, left, right, lc, rc, ok, _, _, hR, _, _, _, _, _, hf => by
     cases Rr with
     | nil => exact absurd rfl hR
     | cons y R => simp at hf
-  | fuel + 1, P, A, Lr, Rr, Q, h, left, right, lc, rc, hs, hn, hR, hlc, hrc, hi, hleft, hright, hf => by
+  | fuel + 1, P, A, Lr, Rr, Q, h, left, right, lc, rc, ok, hs, hn, hR, hlc, hrc, hi, hleft, hright, hf => by
     obtain ⟨y, R, rfl⟩ : ∃ y R, Rr = y :: R := by
       cases Rr with
       | nil => exact absurd rfl hR
@@ -153,6 +154,7 @@ theorem mergeLoop_spec (hc : Spec.LSeq.CmpPreorder cmp) (lSize rSize : Nat) (hle
     -- the node of `y`
     have hsy : Seg h none ((P ++ (A ++ Lr)) ++ y :: (R ++ Q)) none := by simpa using hs
     obtain ⟨_, hy, _⟩ := Seg_split hsy
+    have hyl : (h y.1).isSome = true := by rw [hy]; rfl
     cases Lr with
     | nil =>
       -- the left run is used up: `l_part == r_part`
@@ -161,23 +163,24 @@ theorem mergeLoop_spec (hc : Spec.LSeq.CmpPreorder cmp) (lSize rSize : Nat) (hle
         rcases hc.total y.2 y.2 with t | t <;> exact t
       have hlc' : lc = lSize := by simpa using hlc
       simp only [List.nil_append, nxt_cons, mergeLoop, dataAt_some, nd_of hy, hrefl, if_true, hApos, false_and, if_false, hlc',
-        merge_nil_left]
+        merge_nil_left, live_some, hyl, Bool.and_true]
       have hseg : Seg h (lastOr (P ++ A) none) (y :: R) (nxt Q none) := by
         have : Seg h none ((P ++ A) ++ ((y :: R) ++ Q)) none := by simpa using hs
         exact (Seg_append.1 (Seg_append.1 this).2).1
       have hw := walkNext_lastOr hseg (by simp)
       have hk : rSize - 1 - rc = (y :: R).length - 1 := by simp at hrc ⊢; omega
-      refine ⟨by simpa using hs, ?_, ?_, fun _ _ => by first | trivial | rfl⟩
+      refine ⟨by simpa using hs, ?_, ?_, fun _ _ => by first | trivial | rfl, by first | trivial | rfl⟩
       · rw [hleft]; simp
       · rw [hk]; simp only [nxt_cons] at hw; rw [hw, lastOr_append]
         exact (lastOr_of_ne (show y :: R ≠ [] by simp) _).symm
     | cons a L =>
       have hsa : Seg h none ((P ++ A) ++ a :: (L ++ (y :: R ++ Q))) none := by simpa using hs
       obtain ⟨_, ha, _⟩ := Seg_split hsa
+      have hal : (h a.1).isSome = true := by rw [ha]; rfl
       have hnx : nxt (L ++ y :: (R ++ Q)) none = nxt (L ++ y :: R) none := by
         cases L <;> rfl
       simp only [List.cons_append, nxt_cons, mergeLoop, dataAt_some, nd_of ha, nd_of hy, nextOf, Option.bind_some,
-        Option.getD_some]
+        Option.getD_some, live_some, hal, hyl, Bool.and_true]
       by_cases hcmp : cmp a.2 y.2 ≤ 0
       · -- the left node is in place
         have hm : List.merge (a :: L) (y :: R) (leC cmp) = a :: List.merge L (y :: R) (leC cmp) := by
@@ -190,19 +193,19 @@ theorem mergeLoop_spec (hc : Spec.LSeq.CmpPreorder cmp) (lSize rSize : Nat) (hle
           have hR' : R = [] := List.eq_nil_of_length_eq_zero (by simp at hlc hrc hi; omega)
           subst hL; subst hR'
           simp only [h2, and_self, if_true]
-          refine ⟨by simpa [List.merge] using hs, by rw [hleft]; rfl, ?_, fun _ _ => by first | trivial | rfl⟩
+          refine ⟨by simpa [List.merge] using hs, by rw [hleft]; rfl, ?_, fun _ _ => by first | trivial | rfl, by first | trivial | rfl⟩
           rw [hright rfl]; simp [List.merge]
         · have hne : lc ≠ lSize := by simp at hlc; omega
           simp only [h2, if_false, hne]
           have hs' : Seg h none (P ++ ((A ++ [a]) ++ (L ++ (y :: R ++ Q)))) none := by simpa using hs
           have hn' : (idsOf (P ++ ((A ++ [a]) ++ (L ++ (y :: R ++ Q))))).Nodup := by simpa using hn
-          have ih := mergeLoop_spec hc lSize rSize hle hl0 fuel P (A ++ [a]) L (y :: R) Q h left right (lc + 1) rc hs' hn'
+          have ih := mergeLoop_spec hc lSize rSize hle hl0 fuel P (A ++ [a]) L (y :: R) Q h left right (lc + 1) rc ok hs' hn'
             (by simp) (by simp at hlc ⊢; omega) hrc (by simp; omega) (by rw [hleft]; simp) (by simp) (by simp at hf ⊢; omega)
           simp only [List.length_append, List.length_cons, List.length_nil, nxt_cons] at ih
           rw [hnx]
           have e1 : A ++ [a] ++ List.merge L (y :: R) (leC cmp) = A ++ a :: List.merge L (y :: R) (leC cmp) := by simp
           rw [e1] at ih
-          refine ⟨ih.1, ih.2.1, ih.2.2.1, fun b hb => ih.2.2.2 b (by simpa using hb)⟩
+          refine ⟨ih.1, ih.2.1, ih.2.2.1, fun b hb => ih.2.2.2.1 b (by simpa using hb), ih.2.2.2.2⟩
       · -- the right node is relinked in front of the left cursor
         have hm : List.merge (a :: L) (y :: R) (leC cmp) = y :: List.merge (a :: L) R (leC cmp) := by
           simp [List.merge, leC, hcmp]
@@ -219,7 +222,7 @@ theorem mergeLoop_spec (hc : Spec.LSeq.CmpPreorder cmp) (lSize rSize : Nat) (hle
           have hR' : R = [] := List.eq_nil_of_length_eq_zero (by simp at hlc hrc hi; omega)
           subst hL; subst hR'
           simp only [h2, and_self, if_true]
-          exact ⟨by simpa [List.merge] using mv, rfl, by simp [List.merge], hframe⟩
+          exact ⟨by simpa [List.merge] using mv, rfl, by simp [List.merge], hframe, by first | trivial | rfl⟩
         · simp only [h2, if_false]
           by_cases h3 : rc + 1 = rSize
           · have hR' : R = [] := List.eq_nil_of_length_eq_zero (by simp at hrc; omega)
@@ -236,7 +239,7 @@ theorem mergeLoop_spec (hc : Spec.LSeq.CmpPreorder cmp) (lSize rSize : Nat) (hle
               exact this
             have hw := walkNext_lastOr hseg (by simp)
             have hk : lSize - 1 - lc = (a :: L).length - 1 := by simp at hlc ⊢; omega
-            refine ⟨by simpa using mv, ?_, ?_, hframe⟩
+            refine ⟨by simpa using mv, ?_, ?_, hframe, by first | trivial | rfl⟩
             · rw [hleft]
               cases A with
               | nil => exact absurd rfl hAne
@@ -257,7 +260,7 @@ theorem mergeLoop_spec (hc : Spec.LSeq.CmpPreorder cmp) (lSize rSize : Nat) (hle
             have hn' : (idsOf (P ++ ((A ++ [y]) ++ ((a :: L) ++ (R ++ Q))))).Nodup := by
               exact (((move_perm P A a L y R Q).map (fun c : Cell => c.1)).nodup_iff).2 hn
             have ih := mergeLoop_spec hc lSize rSize hle hl0 fuel P (A ++ [y]) (a :: L) R Q (linkBehind h a.1 y.1)
-              (if A.length = 0 then some y.1 else left) right lc (rc + 1) hs' hn' hRne hlc (by simp at hrc ⊢; omega) (by simp; omega)
+              (if A.length = 0 then some y.1 else left) right lc (rc + 1) ok hs' hn' hRne hlc (by simp at hrc ⊢; omega) (by simp; omega)
               (by
                 by_cases hA0 : A.length = 0
                 · have hA : A = [] := List.eq_nil_of_length_eq_zero hA0
@@ -270,8 +273,8 @@ theorem mergeLoop_spec (hc : Spec.LSeq.CmpPreorder cmp) (lSize rSize : Nat) (hle
             simp only [List.length_append, List.length_cons, List.length_nil, List.cons_append, nxt_cons] at ih
             have e1 : A ++ [y] ++ List.merge (a :: L) R (leC cmp) = A ++ y :: List.merge (a :: L) R (leC cmp) := by simp
             rw [e1] at ih
-            refine ⟨ih.1, ih.2.1, ih.2.2.1, fun b hb => ?_⟩
-            rw [ih.2.2.2 b (fun hm => hb ((((move_perm P A a L y R Q).map (fun c : Cell => c.1)).mem_iff).1 hm))]
+            refine ⟨ih.1, ih.2.1, ih.2.2.1, fun b hb => ?_, ih.2.2.2.2⟩
+            rw [ih.2.2.2.1 b (fun hm => hb ((((move_perm P A a L y R Q).map (fun c : Cell => c.1)).mem_iff).1 hm))]
             exact hframe b hb
 
 /-! ### `split` -/
@@ -342,21 +345,22 @@ theorem ids_perm_nodup {xs ys : List Cell} (hp : xs.Perm ys) : (idsOf xs).Nodup 
 /-- **`split(list, b, size, cmp)` on the raw links**: the `size` nodes of the run `seg` (inside the whole chain
 `P ++ seg ++ Q`) are relinked in the order of the merge sort; the first node of the sorted run is returned and — when
 something was merged — assigned to `list->head`, the last one to `list->tail`; nothing outside the chain is written -/
-theorem split_spec (hc : Spec.LSeq.CmpPreorder cmp) : ∀ (fuel : Nat) (h : Heap) (l : Hdr) (P seg Q : List Cell) (size : Nat),
+theorem split_spec (hc : Spec.LSeq.CmpPreorder cmp) : ∀ (fuel : Nat) (h : Heap) (l : Hdr) (P seg Q : List Cell) (size : Nat) (ok : Bool),
     Seg h none (P ++ (seg ++ Q)) none → (idsOf (P ++ (seg ++ Q))).Nodup → seg.length = size → 1 ≤ size → size ≤ fuel →
-    Seg (split cmp fuel h l (nxt seg none) size).1 none (P ++ (msortC cmp fuel seg ++ Q)) none ∧
-    (split cmp fuel h l (nxt seg none) size).2.2 = nxt (msortC cmp fuel seg) none ∧
-    (split cmp fuel h l (nxt seg none) size).2.1.size = l.size ∧ (split cmp fuel h l (nxt seg none) size).2.1.triple = l.triple ∧
-    (2 ≤ size → (split cmp fuel h l (nxt seg none) size).2.1.head = nxt (msortC cmp fuel seg) none ∧
-      (split cmp fuel h l (nxt seg none) size).2.1.tail = lastOr (msortC cmp fuel seg) none) ∧
-    (size < 2 → (split cmp fuel h l (nxt seg none) size).2.1 = l) ∧
-    (∀ b, b ∉ idsOf (P ++ (seg ++ Q)) → (split cmp fuel h l (nxt seg none) size).1 b = h b)
-  | 0, h, l, P, seg, Q, size, _, _, _, h1, hf => by omega
-  | fuel + 1, h, l, P, seg, Q, size, hs, hn, hsz, h1, hf => by
+    Seg (split cmp fuel h l (nxt seg none) size ok).1 none (P ++ (msortC cmp fuel seg ++ Q)) none ∧
+    (split cmp fuel h l (nxt seg none) size ok).2.2.1 = nxt (msortC cmp fuel seg) none ∧
+    (split cmp fuel h l (nxt seg none) size ok).2.1.size = l.size ∧ (split cmp fuel h l (nxt seg none) size ok).2.1.triple = l.triple ∧
+    (2 ≤ size → (split cmp fuel h l (nxt seg none) size ok).2.1.head = nxt (msortC cmp fuel seg) none ∧
+      (split cmp fuel h l (nxt seg none) size ok).2.1.tail = lastOr (msortC cmp fuel seg) none) ∧
+    (size < 2 → (split cmp fuel h l (nxt seg none) size ok).2.1 = l) ∧
+    (∀ b, b ∉ idsOf (P ++ (seg ++ Q)) → (split cmp fuel h l (nxt seg none) size ok).1 b = h b) ∧
+    (split cmp fuel h l (nxt seg none) size ok).2.2.2 = ok
+  | 0, h, l, P, seg, Q, size, ok, _, _, _, h1, hf => by omega
+  | fuel + 1, h, l, P, seg, Q, size, ok, hs, hn, hsz, h1, hf => by
     by_cases h2 : size < 2
     · simp only [split, h2, if_true]
       rw [msortC_short _ _ (by omega)]
-      refine ⟨hs, ?_, ?_, ?_, fun _ => by omega, ?_, ?_⟩ <;>
+      refine ⟨hs, ?_, ?_, ?_, fun _ => by omega, ?_, ?_, ?_⟩ <;>
         first | trivial | rfl | (intro _; first | trivial | rfl) | (intro _ _; first | trivial | rfl)
     · have hl1 : 1 ≤ size / 2 := by omega
       have hr1 : 1 ≤ size / 2 + size % 2 := by omega
@@ -385,7 +389,7 @@ theorem split_spec (hc : Spec.LSeq.CmpPreorder cmp) : ∀ (fuel : Nat) (h : Heap
         rw [← List.append_assoc (seg.take _), ← hseg]; exact hs
       have hn1 : (idsOf (P ++ (seg.take (size / 2) ++ (seg.drop (size / 2) ++ Q)))).Nodup := by
         rw [← List.append_assoc (seg.take _), ← hseg]; exact hn
-      obtain ⟨a1, a2, a3, a4, _, _, a7⟩ := split_spec hc fuel h l P (seg.take (size / 2)) (seg.drop (size / 2) ++ Q) (size / 2)
+      obtain ⟨a1, a2, a3, a4, _, _, a7, a8⟩ := split_spec hc fuel h l P (seg.take (size / 2)) (seg.drop (size / 2) ++ Q) (size / 2) ok
         hs1 hn1 hL0 hl1 (by omega)
       -- right run
       have hp1 : (P ++ (msortC cmp fuel (seg.take (size / 2)) ++ (seg.drop (size / 2) ++ Q))).Perm (P ++ (seg ++ Q)) := by
@@ -394,13 +398,13 @@ theorem split_spec (hc : Spec.LSeq.CmpPreorder cmp) : ∀ (fuel : Nat) (h : Heap
         refine List.Perm.append_right Q ?_
         conv => rhs; rw [hseg]
         exact (msortC_perm fuel _).append_right _
-      have hs2 : Seg (split cmp fuel h l (nxt (seg.take (size / 2)) none) (size / 2)).1 none
+      have hs2 : Seg (split cmp fuel h l (nxt (seg.take (size / 2)) none) (size / 2) ok).1 none
           ((P ++ msortC cmp fuel (seg.take (size / 2))) ++ (seg.drop (size / 2) ++ Q)) none := by simpa using a1
       have hn2 : (idsOf ((P ++ msortC cmp fuel (seg.take (size / 2))) ++ (seg.drop (size / 2) ++ Q))).Nodup := by
         rw [List.append_assoc]; exact (ids_perm_nodup hp1).2 hn
-      obtain ⟨b1, b2, b3, b4, _, _, b7⟩ := split_spec hc fuel (split cmp fuel h l (nxt (seg.take (size / 2)) none) (size / 2)).1
-        (split cmp fuel h l (nxt (seg.take (size / 2)) none) (size / 2)).2.1 (P ++ msortC cmp fuel (seg.take (size / 2)))
-        (seg.drop (size / 2)) Q (size / 2 + size % 2) hs2 hn2 hR0 hr1 (by omega)
+      obtain ⟨b1, b2, b3, b4, _, _, b7, b8⟩ := split_spec hc fuel (split cmp fuel h l (nxt (seg.take (size / 2)) none) (size / 2) ok).1
+        (split cmp fuel h l (nxt (seg.take (size / 2)) none) (size / 2) ok).2.1 (P ++ msortC cmp fuel (seg.take (size / 2)))
+        (seg.drop (size / 2)) Q (size / 2 + size % 2) (split cmp fuel h l (nxt (seg.take (size / 2)) none) (size / 2) ok).2.2.2 hs2 hn2 hR0 hr1 (by omega)
       -- merge
       have hp2 : (P ++ (msortC cmp fuel (seg.take (size / 2)) ++ (msortC cmp fuel (seg.drop (size / 2)) ++ Q))).Perm (P ++ (seg ++ Q)) := by
         refine List.Perm.trans ?_ hp1
@@ -410,58 +414,60 @@ theorem split_spec (hc : Spec.LSeq.CmpPreorder cmp) : ∀ (fuel : Nat) (h : Heap
       have hsR : (msortC cmp fuel (seg.drop (size / 2))).length = size / 2 + size % 2 := by rw [msortC_length, hR0]
       have hsLne : msortC cmp fuel (seg.take (size / 2)) ≠ [] := fun e => by rw [e] at hsL; simp at hsL; omega
       have hsRne : msortC cmp fuel (seg.drop (size / 2)) ≠ [] := fun e => by rw [e] at hsR; simp at hsR; omega
-      have hs3 : Seg (split cmp fuel (split cmp fuel h l (nxt (seg.take (size / 2)) none) (size / 2)).1
-            (split cmp fuel h l (nxt (seg.take (size / 2)) none) (size / 2)).2.1 (nxt (seg.drop (size / 2)) none) (size / 2 + size % 2)).1 none
+      have hs3 : Seg (split cmp fuel (split cmp fuel h l (nxt (seg.take (size / 2)) none) (size / 2) ok).1
+            (split cmp fuel h l (nxt (seg.take (size / 2)) none) (size / 2) ok).2.1 (nxt (seg.drop (size / 2)) none) (size / 2 + size % 2)
+            (split cmp fuel h l (nxt (seg.take (size / 2)) none) (size / 2) ok).2.2.2).1 none
           (P ++ ([] ++ (msortC cmp fuel (seg.take (size / 2)) ++ (msortC cmp fuel (seg.drop (size / 2)) ++ Q)))) none := by
         simpa using b1
       have hn3 : (idsOf (P ++ ([] ++ (msortC cmp fuel (seg.take (size / 2)) ++ (msortC cmp fuel (seg.drop (size / 2)) ++ Q))))).Nodup := by
         rw [List.nil_append]; exact (ids_perm_nodup hp2).2 hn
       have hlp : nxt (msortC cmp fuel (seg.take (size / 2)) ++ msortC cmp fuel (seg.drop (size / 2))) none =
           nxt (msortC cmp fuel (seg.take (size / 2))) none := by rw [nxt_append]; exact nxt_of_ne hsLne _
-      obtain ⟨c1, c2, c3, c4⟩ := mergeLoop_spec hc (size / 2) (size / 2 + size % 2) (by omega) hl1
+      obtain ⟨c1, c2, c3, c4, c5⟩ := mergeLoop_spec hc (size / 2) (size / 2 + size % 2) (by omega) hl1
         (size / 2 + size % 2 + size / 2) P [] (msortC cmp fuel (seg.take (size / 2))) (msortC cmp fuel (seg.drop (size / 2))) Q _
-        (nxt (msortC cmp fuel (seg.take (size / 2))) none) (nxt (msortC cmp fuel (seg.drop (size / 2))) none) 0 0
+        (nxt (msortC cmp fuel (seg.take (size / 2))) none) (nxt (msortC cmp fuel (seg.drop (size / 2))) none) 0 0 _
         hs3 hn3 hsRne (by omega) (by omega) rfl (by rw [List.nil_append, hlp]) (fun _ => rfl) (by omega)
-      rw [hlp] at c1 c2 c3 c4
-      simp only [List.length_nil, List.nil_append] at c1 c2 c3 c4
+      rw [hlp] at c1 c2 c3 c4 c5
+      simp only [List.length_nil, List.nil_append] at c1 c2 c3 c4 c5
       rw [a2, b2]
       have hms : msortC cmp (fuel + 1) seg =
           List.merge (msortC cmp fuel (seg.take (size / 2))) (msortC cmp fuel (seg.drop (size / 2))) (leC cmp) := by
         simp only [msortC, hsz, h2, if_false]
       rw [hms]
       refine ⟨c1, c2, by rw [b3, a3], by rw [b4, a4], fun _ => ⟨c2, c3⟩, fun hlt => by first | exact absurd hlt h2 | exact hlt.elim,
-        fun b hb' => ?_⟩
+        fun b hb' => ?_, by rw [c5, b8, a8]⟩
       rw [c4 b (fun hm => hb' ((ids_perm_mem hp2 b).1 (by simpa using hm)))]
       rw [b7 b (fun hm => hb' ((ids_perm_mem hp1 b).1 (by simpa using hm)))]
       exact a7 b (fun hm => hb' (by rw [← List.append_assoc (seg.take _), ← hseg] at hm; exact hm))
 
 /-- **`cc_list_sort_in_place` on the raw links**: the same nodes, relinked in the order of the merge sort; the list is
 represented (hence well-formed: `next` and `prev` agree, `head`/`tail` are the ends) again -/
-theorem sortInPlace_spec (hc : Spec.LSeq.CmpPreorder cmp) (s : St) (l : Hdr) (cs : List Cell) (r : Repr s.heap l cs) :
-    Repr (sortInPlace cmp s l).1.heap (sortInPlace cmp s l).2 (msortC cmp cs.length cs) ∧
-    (sortInPlace cmp s l).2.triple = l.triple ∧ (sortInPlace cmp s l).1.fresh = s.fresh ∧
-    (∀ b, b ∉ idsOf cs → (sortInPlace cmp s l).1.heap b = s.heap b) := by
+theorem sortInPlace_spec (hc : Spec.LSeq.CmpPreorder cmp) (s : St) (l : Hdr) (cs : List Cell) (m : Mem) (r : Repr s.heap l cs) :
+    Repr (sortInPlace cmp s l m).1.heap (sortInPlace cmp s l m).2.1 (msortC cmp cs.length cs) ∧
+    (sortInPlace cmp s l m).2.1.triple = l.triple ∧ (sortInPlace cmp s l m).1.fresh = s.fresh ∧
+    (∀ b, b ∉ idsOf cs → (sortInPlace cmp s l m).1.heap b = s.heap b) ∧
+    (sortInPlace cmp s l m).2.2 = m := by
   unfold sortInPlace
   rw [r.size, r.head]
   by_cases h2 : cs.length < 2
-  · have e : split cmp cs.length s.heap l (nxt cs none) cs.length = (s.heap, l, nxt cs none) := by
+  · have e : split cmp cs.length s.heap l (nxt cs none) cs.length true = (s.heap, l, nxt cs none, true) := by
       cases hl : cs.length with
       | zero => rfl
       | succ k => simp only [split]; rw [if_pos (by omega)]
     rw [e, msortC_short _ _ h2]
-    exact ⟨r, rfl, rfl, fun _ _ => rfl⟩
+    exact ⟨r, rfl, rfl, fun _ _ => rfl, rfl⟩
   · have hs0 : Seg s.heap none ([] ++ (cs ++ [])) none := by simpa using r.seg
     have hn0 : (idsOf ([] ++ (cs ++ []))).Nodup := by simpa using r.nodup
-    obtain ⟨a1, _, a3, a4, a5, _, a7⟩ := split_spec hc cs.length s.heap l [] cs [] cs.length hs0 hn0 rfl (by omega) (Nat.le_refl _)
+    obtain ⟨a1, _, a3, a4, a5, _, a7, a8⟩ := split_spec hc cs.length s.heap l [] cs [] cs.length true hs0 hn0 rfl (by omega) (Nat.le_refl _)
     obtain ⟨hh, ht⟩ := a5 (by omega)
     refine ⟨⟨(ids_perm_nodup (msortC_perm _ _)).2 r.nodup, by simpa using a1, by rw [a3, r.size, msortC_length], hh, ht⟩, a4, rfl,
-      fun b hb => a7 b (by simpa using hb)⟩
+      fun b hb => a7 b (by simpa using hb), by show m.check _ = m; rw [a8]; rfl⟩
 
 /-- the content along `next` after the in-place sort is what the sequence-level models compute -/
 theorem sortInPlace_fwd (hc : Spec.LSeq.CmpPreorder cmp) (s : St) (l : Hdr) (cs : List Cell) (r : Repr s.heap l cs) (m : Mem) :
-    fwd (sortInPlace cmp s l).1.heap (sortInPlace cmp s l).2 =
+    fwd (sortInPlace cmp s l m).1.heap (sortInPlace cmp s l m).2.1 =
       (DList.sortInPlaceC cmp (Chain.ofList l.triple (dataOf cs)) m).1.abs := by
-  rw [(sortInPlace_spec hc s l cs r).1.fwd, DList.sortInPlaceC_eq hc _ (Chain.ofList_inv _) m, DList.sortInPlace_ofList,
+  rw [(sortInPlace_spec hc s l cs m r).1.fwd, DList.sortInPlaceC_eq hc _ (Chain.ofList_inv _) m, DList.sortInPlace_ofList,
     Chain.ofList_abs, dataOf_msortC, dataOf_length]
 
 /-! ### `cc_list_sort`: write-back into the existing nodes -/
